@@ -9,6 +9,7 @@ import (
 
 	"github.com/massnetorg/mass-core/wire"
 	"massnet.org/mass-wallet/masswallet/keystore"
+	"massnet.org/mass-wallet/masswallet/txmgr"
 
 	"verifharness/core"
 	"verifharness/sim"
@@ -374,8 +375,13 @@ func c12Case(t *core.T, maxSteps int) {
 	}
 	defer w2.Stop(30 * time.Second)
 	t.Eval(1)
-	sum, err := w2.W.ImportWalletWithMnemonic(&keystore.WalletParams{Mnemonic: k.Mnemonic, PrivatePassphrase: []byte(pass), Remarks: "r", ExternalIndex: hint, AddressGapLimit: G})
-	wd.Logf("restore with hint %d -> %v (used indexes %v, gap invariant on final chain %v)", hint, err, usedIdx, invariant)
+	// the restore may also carry a hint for the internal (change) branch, as a keystore file does
+	intHint := uint32(0)
+	if t.R.Chance(50) {
+		intHint = uint32(t.R.Range(1, 8))
+	}
+	sum, err := w2.W.ImportWalletWithMnemonic(&keystore.WalletParams{Mnemonic: k.Mnemonic, PrivatePassphrase: []byte(pass), Remarks: "r", ExternalIndex: hint, InternalIndex: intHint, AddressGapLimit: G})
+	wd.Logf("restore with hint %d (internal branch %d) -> %v (used indexes %v, gap invariant on final chain %v)", hint, intHint, err, usedIdx, invariant)
 	if err != nil {
 		t.Violate("restore-failed", fmt.Sprintf("ImportWalletWithMnemonic failed: %v", err), wd.Witness())
 		return
@@ -414,6 +420,9 @@ func c12Case(t *core.T, maxSteps int) {
 	} else {
 		t.Count("restores_skipped_gap_invariant_broken_by_reorg", 1)
 	}
+	if m.ref != nil && !c12AfterRestore(t, wd, w2, m.ref, list) {
+		return
+	}
 	t.Count("gap_refusals_observed", refusals)
 	t.Count("reorgs_removing_a_first_payment", reorgsRemovingUse)
 	t.Count("restarts", restarts)
@@ -426,6 +435,125 @@ func c12Case(t *core.T, maxSteps int) {
 		ops = ops[:25]
 	}
 	t.Sample(map[string]interface{}{"gap_limit": G, "shape": strings.Join(shape, " "), "first_ops": ops})
+}
+
+// c12AfterRestore: the restored wallet goes on issuing addresses. Each must be new, lie past every
+// address the restore listed, follow its predecessor directly, be listed from then on, and be
+// flagged as used (with its coin reported) as soon as the best chain pays it - before any restart
+// and after one.
+func c12AfterRestore(t *core.T, wd *sim.World, w2 *sim.Wallet, ref *refWallet, list []*txmgr.AddressDetail) bool {
+	idxOf := func(addr string) (int, bool) {
+		for i := 0; i < 600; i++ {
+			std, stk, _, ok := ref.Address(uint32(i))
+			if ok && (std == addr || stk == addr) {
+				return i, true
+			}
+		}
+		return -1, false
+	}
+	maxListed := -1
+	listed := map[string]bool{}
+	for _, a := range list {
+		listed[a.Address] = true
+		if i, ok := idxOf(a.Address); ok && i > maxListed {
+			maxListed = i
+		}
+	}
+	prev := -1
+	type paid struct {
+		addr string
+		amt  int64
+	}
+	var pays []paid
+	check := func(when string) bool {
+		l2, err := w2.W.GetAddresses(math.MaxUint16)
+		if err != nil {
+			t.Violate("getaddresses-failed", when+": "+err.Error(), wd.Witness())
+			return false
+		}
+		for _, p := range pays {
+			var d *txmgr.AddressDetail
+			for _, a := range l2 {
+				if a.Address == p.addr {
+					d = a
+				}
+			}
+			if d == nil {
+				t.Violate("issued-address-not-listed", fmt.Sprintf("%s: address %s issued by the restored wallet is not listed", when, p.addr), wd.Witness())
+				return false
+			}
+			if !d.Used {
+				t.Violate("used-flag-missing", fmt.Sprintf("%s: address %s issued by the restored wallet: used=false but the best chain contains a payment to it", when, p.addr), wd.Witness())
+				return false
+			}
+			us, err := w2.W.GetUtxo([]string{p.addr})
+			if err != nil {
+				t.Violate("getutxo-failed", when+": "+err.Error(), wd.Witness())
+				return false
+			}
+			n := 0
+			for _, l := range us {
+				n += len(l)
+			}
+			if n != 1 {
+				t.Violate("payment-to-issued-address-not-reported", fmt.Sprintf("%s: address %s issued by the restored wallet was paid once on the best chain, the wallet reports %d coins for it", when, p.addr, n), wd.Witness())
+				return false
+			}
+		}
+		return true
+	}
+	rounds := t.R.Range(1, 3)
+	for r := 0; r < rounds; r++ {
+		t.Eval(1)
+		class := uint16(0)
+		addr, err := w2.W.NewAddress(class)
+		if err == keystore.ErrGapLimit {
+			t.Count("after_restore_newaddress_refused_by_gap_rule", 1)
+			break
+		}
+		if err != nil {
+			t.Violate("newaddress-refused", fmt.Sprintf("restored wallet: NewAddress failed: %v", err), wd.Witness())
+			return false
+		}
+		i, ok := idxOf(addr)
+		wd.Logf("restored wallet: NewAddress -> %s (index %d, restore listed up to index %d)", addr, i, maxListed)
+		if !ok {
+			t.Violate("address-not-at-next-index", fmt.Sprintf("restored wallet: NewAddress returned %s, which is none of the first 600 addresses of the mnemonic", addr), wd.Witness())
+			return false
+		}
+		if listed[addr] || i <= maxListed {
+			t.Violate("address-issued-twice", fmt.Sprintf("restored wallet: NewAddress returned %s (index %d) although the restore had listed addresses up to index %d", addr, i, maxListed), wd.Witness())
+			return false
+		}
+		if prev >= 0 && i != prev+1 {
+			t.Violate("address-not-at-next-index", fmt.Sprintf("restored wallet: NewAddress returned index %d after index %d", i, prev), wd.Witness())
+			return false
+		}
+		prev = i
+		listed[addr] = true
+		h, herr := sim.HashOfAddress(addr)
+		if herr != nil {
+			t.Violate("newaddress-undecodable", herr.Error(), wd.Witness())
+			return false
+		}
+		amt := int64(t.R.Range(1000, 900000))
+		cb := sim.Coinbase(wd.N.Height()+1, t.R.Uint64(), []*wire.TxOut{wire.NewTxOut(int64(t.R.Range(1000, 9000)), sim.P2WSH(wd.StrangerPub())), wire.NewTxOut(amt, sim.P2WSH(h))})
+		b := wd.N.NewBlock(wd.N.Tip(), []*wire.MsgTx{cb})
+		if err := wd.N.Extend(b); err != nil {
+			t.Fatalf("extend: %v", err)
+		}
+		w2.Deliver(b)
+		if !w2.Quiesce(30 * time.Second) {
+			t.Inconclusive("handler of the restored instance not idle")
+			return false
+		}
+		pays = append(pays, paid{addr, amt})
+		if !check(fmt.Sprintf("after paying address %d of the restored wallet", i)) {
+			return false
+		}
+		t.Count("addresses_issued_and_paid_after_restore", 1)
+	}
+	return true
 }
 
 func minInt(a, b int) int {
